@@ -398,6 +398,25 @@ def work(unit):
                 out["cases"] += n
                 out["tables"] += 1
                 out["keys"] += ["table|%s|%s|%d|%d" % (label, kind, start, i) for i in range(n)]
+        # ---- a history across schemas: the same cell texts converted with a SECOND schema object of the same version that carries a
+        # namespace prefix (there the unprefixed spellings name no tag), then with the first schema again: what a cell converts to
+        # depends on the schema handed in, never on a conversion made before with another schema
+        arg = spec[1] if spec[0] == "bundled" and isinstance(spec[1], str) else None
+        if arg and not any(c in arg for c in ":+,[") and members[0]._namespace == "":
+            S2, _m2 = _cfg["load"](("bundled", "zz:" + arg))
+
+            def rec2(clause, inp, observed, expected_):
+                rec(clause, dict(inp, history="converted before with %s; this conversion with zz:%s" % (arg, arg)), observed, expected_)
+
+            def rec3(clause, inp, observed, expected_):
+                rec(clause, dict(inp, history="converted before with zz:%s; this conversion with %s" % (arg, arg)), observed, expected_)
+            chunk = texts[:ROWS_PER_TABLE]
+            for kind in ("tabular-df", "series"):
+                n = check_table(S2, kind, chunk, {}, first_tag, rec2, {})
+                n += check_table(S, kind, chunk, expected, first_tag, rec3, memo)
+                out["cases"] += n
+                out["tables"] += 2
+                out["keys"] += ["table-second-schema|%s|%s|%d" % (label, kind, i) for i in range(n)]
         # ---- sibling cells: several cells of a column equal up to letter case / blanks ------------------------------
         groups, companions = [], []
         for mi, names in enumerate(per_member):
